@@ -4,17 +4,17 @@ package main
 // C10 maps, C11 slices, C12 structs, C13 strings, C14 printing.
 
 import (
-	"os"
 	"fmt"
 	"go/ast"
 	"go/token"
 	"go/types"
+	"os"
 	"strings"
 )
 
 func init() {
 	register(&propDef{
-		ID: "C10",
+		ID:          "C10",
 		Explanation: "History semantics of maps is behavioural; one representation clause is decided: a range never yields a key twice needs the side list `keys` duplicate-free and a superset of the live keys. REP-MAPKEYS, for stringMap and numericMap (sibling agreement): (a) `data` and `keys` are written only by the type's own methods and constructor; (b) every append to `keys` happens on a path where the key was tested absent from `data`; (c) absence from `data` implies absence from `keys` only if keys has no stale entries when Set appends: either every Delete path re-synchronises keys, or the appending path of Set runs under len(keys) == len(data) or re-synchronises first; (d) Range iterates a snapshot of keys taken at call time and yields a key only under a comma-ok hit in data. REP-MAPGET: Get is a comma-ok lookup returning (newZero(valueType), false) on a miss and (stored, true) on a hit; Value.Get on a nil map returns the zero of the element half of the type pair; Len is len(data). Not decided: 'lookups see the latest write' over histories (delegated to a Go map), at-most-once for keys inserted during the loop, host-side NewMap argument validation.",
 		Quick: []ruleDef{
 			{"REP-MAPKEYS", 10, ruleRepMapKeys},
@@ -22,7 +22,7 @@ func init() {
 		},
 	})
 	register(&propDef{
-		ID: "C11",
+		ID:          "C11",
 		Explanation: "Slices behave like Go slices because each script operation is the same Go operation on the underlying []Value; the rules check the delegation is intact. REP-SLICE: sliceT.Slice returns a value whose data is the two-index slice expression s.data[i:j] (no make/copy/append: aliasing and capacity as in Go); Append is append(s.data, items...); Get/Set index s.data directly (out of range = Go's runtime panic, surfaced as an error) and Set converts with the element type; Len is len(s.data); COPY is the builtin copy over data() of both operands and Value.data() returns the slice's own backing slice; the nil-slice wrappers (Len, Range, Append, Slice) test v.value against nil. REP-STACKESCAPE: no sub-slice of the VM's operand stack flows into a function that retains its []Value parameter as a slice's data (the stack is overwritten by the next push) without an intervening make+copy; Value.Append (which retains only on its nil branch) may receive a stack view only under a receiver non-nil test. Not decided: histories; growth policy.",
 		Quick: []ruleDef{
 			{"REP-SLICE", 10, ruleRepSlice},
@@ -31,7 +31,7 @@ func init() {
 		},
 	})
 	register(&propDef{
-		ID: "C12",
+		ID:          "C12",
 		Explanation: "Ownership clauses of struct values: a new instance's Fields come from intMap.Copy() of the type's table (never the table itself) and Copy allocates a fresh pairs slice and copies into it; the instance's Methods is the same pointer as the type's; SetIndex goes through intMap.Assign, which converts with assign(existing.t), never inserts and never changes the count; GetIndex consults fields before methods; struct Values hold *structT (reference semantics); field order is kept in Order, appended only for a new name. REP-INTMAP decides the structural invariants of the field table that its lookups rely on: every slot access of every operation uses an index reduced modulo the table size on all paths (must-dataflow, interprocedural over new helpers), probe indices step by one, no partial scans, mask = size-1, power-of-two sizes, max < size-1 (an empty slot always exists), growth on total > max, distance 1 on insertion, lookups stop at distance 0, Delete's back-shift protocol, resize re-inserting at the key's own hash. REP-DEFTYPE / REP-DEFCONV: struct type / conversion resolution looks through defined-type aliases for plain and qualified names. Not decided: the induction from these invariants to lookup correctness over all histories (textbook argument, stated in DESIGN.md).",
 		Quick: []ruleDef{
 			{"REP-STRUCT", 8, ruleRepStruct},
@@ -41,7 +41,7 @@ func init() {
 		},
 	})
 	register(&propDef{
-		ID: "C13",
+		ID:          "C13",
 		Explanation: "Strings: delegation rules with Go's own constructs as oracle. REP-STRING: stringT.Len is len(s); Get indexes the string and wraps the byte with the uint8 constructor; Slice is s[i:j]; the key yielded by Range derives from the index variable of a Go range over s (byte offsets) and the value from its rune variable; opAdd/opLt/opLte/Equals apply + < <= == to stringT operands; convert uses string(rune(.)), []byte(.) and string([]byte); no method writes through s. PAN-ERRDROP(literals): token.go's decoders do not discard the error of strconv.Unquote*/Parse*, and UnquoteChar is given the single quote it is inside. LIT-CONSTKEY: a literal kept in the constant table is keyed by the token's own spelling, the same key for Set and for the CONST operand. Not decided: escapes beyond what strconv decides; invalid UTF-8 (delegated to Go's range/conversions).",
 		Quick: []ruleDef{
 			{"REP-STRING", 10, ruleRepString},
@@ -51,7 +51,7 @@ func init() {
 		},
 	})
 	register(&propDef{
-		ID: "C14",
+		ID:          "C14",
 		Explanation: "REP-PRINT, termination: in every SafeStr method the recursive rendering of an element is preceded, in the same iteration, by the isSafeStr guard that returns the elision; isSafeStr is false for exactly the tags whose String iterates elements (slice, map, struct); every String method of a container renders elements through safeStr (so nesting below a container is cut at depth 2 and rendering terminates on cyclic graphs). Dispatch: numeric tags render fmt.Sprint of the Go number, strings raw, booleans through Bool(); vaSprint joins with one space; struct rendering ranges the Order slice (declaration order), never the Lookup map, and addField appends to Order only for a new name. REP-ORDER: Order (shared by all instances as a slice header) only grows by append to itself, is never truncated/re-sliced/stored into, and no loop over a map appends to it. Not decided: textual equality with %v (value level); depth>=3 prints [...] where Go prints the full value (a known divergence this family cannot detect by rule).",
 		Quick: []ruleDef{
 			{"REP-PRINT", 12, ruleRepPrint},
@@ -540,8 +540,13 @@ func ruleRepSlice(c *Ctx, r *R) {
 		return len(p.Ret) == 1 && p.Ret[0].String() == "newSlice(s.valueType, s.data[i:j])"
 	}, "newSlice(valueType, s.data[i:j]) — shares the backing array", "a sub-slice must be the Go slice expression s.data[i:j] so that writes are visible through both and capacity is shared")
 	chk("Append", "sliceT.Append", func(p *State) bool {
-		return len(p.Ret) == 1 && p.Ret[0].String() == "NewSlice(s.valueType, builtin.append(s.data, ...items))"
-	}, "NewSlice(valueType, append(s.data, items...))", "append must be Go's append on s.data (in place within capacity, reallocating beyond it)")
+		if len(p.Ret) != 1 {
+			return false
+		}
+		// or: the raw constructor over Go's append, after a loop that converts exactly the
+		// appended tail to the element type (an append then costs what it appends)
+		return p.Ret[0].String() == "newSlice(s.valueType, builtin.append(s.data, ...items))" && c.appendConvertsTail() == ""
+	}, "newSlice(valueType, append(s.data, items...)) after converting the appended tail", "append must be Go's append on s.data (in place within capacity, reallocating beyond it) with only the new elements converted to the element type — NewSlice over the whole result converts every element again on each append, so a loop of n appends costs n*n (150000 appends take half a minute)")
 	chk("Get", "sliceT.Get", func(p *State) bool {
 		return len(p.Ret) == 2 && p.Ret[0].String() == "s.data[Value.Int(k)]" && p.Ret[1].String() == "true"
 	}, "s.data[k.Int()]", "indexing must index s.data directly (out of range is Go's runtime panic)")
@@ -1287,7 +1292,9 @@ func ruleRepString(c *Ctx, r *R) {
 	}
 	// operators on strings
 	for _, w := range []struct{ fn, op string }{{"Value.opAdd", "+"}, {"Value.opLt", "<"}, {"Value.opLte", "<="}, {"Value.Equals", "=="}} {
-		ps := c.pathsOf(w.fn, func(in *Interp) { in.Inline = func(o types.Object) bool { return o.Name() == "mixType" || c.isNewHelper(o) } })
+		ps := c.pathsOf(w.fn, func(in *Interp) {
+			in.Inline = func(o types.Object) bool { return o.Name() == "mixType" || c.isNewHelper(o) }
+		})
 		good := false
 		for _, p := range ps {
 			for _, rt := range p.Ret {
@@ -1616,12 +1623,12 @@ func ruleRepPrint(c *Ctx, r *R) {
 // REP-RAWSLICE: the raw constructor newSlice (which does not convert elements to
 // the element type) is called only where the elements are already typed.
 var rawSliceSites = map[string]string{
-	"NewSlice":       "after converting every element with assign(valueType)",
-	"sliceT.Slice":   "a sub-slice of data that is already typed",
-	"Value.Slice":    "the empty slice of a nil slice",
-	"Value.Append":   "nil-receiver branch: not reachable from APPEND (which handles nil itself); host values",
-	"Value.convert":  "bytes built with the Byte constructor",
-	"loadSlices":     "slices.Delete shim: a sub-range of data that is already typed",
+	"NewSlice":      "after converting every element with assign(valueType)",
+	"sliceT.Slice":  "a sub-slice of data that is already typed",
+	"Value.Slice":   "the empty slice of a nil slice",
+	"Value.Append":  "nil-receiver branch: not reachable from APPEND (which handles nil itself); host values",
+	"Value.convert": "bytes built with the Byte constructor",
+	"loadSlices":    "slices.Delete shim: a sub-range of data that is already typed",
 }
 
 func ruleRepRawSlice(c *Ctx, r *R) {
@@ -1639,6 +1646,15 @@ func ruleRepRawSlice(c *Ctx, r *R) {
 				name = c.fnName(fd)
 			}
 			why, ok := rawSliceSites[name]
+			if name == "sliceT.Append" && !ok {
+				bad := c.appendConvertsTail()
+				if debugAppend {
+					fmt.Fprintln(os.Stderr, "appendConvertsTail:", bad)
+				}
+				if bad == "" {
+					why, ok = "the elements already held are typed and the appended tail is converted by the loop before", true
+				}
+			}
 			r.check(ok, "newSlice in "+name, c.Pos(call), why,
 				name+" builds a slice with the raw constructor newSlice, which does not convert elements to the slice's element type: untyped constants stored this way keep the untyped tag (use NewSlice)")
 			return true
@@ -1648,3 +1664,93 @@ func ruleRepRawSlice(c *Ctx, r *R) {
 		r.undecided("newSlice", "-", "no call of newSlice found")
 	}
 }
+
+// appendConvertsTail: sliceT.Append has the shape
+//
+//	n := len(s.data); data := append(s.data, items...)
+//	for i := n; i < len(data); i++ { data[i] = data[i].assign(s.valueType) }
+//
+// i.e. every element past the old length — exactly the appended ones — is converted to the
+// element type, and nothing below n is written. Returns "" or what is missing.
+func (c *Ctx) appendConvertsTail() string {
+	fd := c.Func("sliceT.Append")
+	if fd == nil || fd.Body == nil {
+		return "sliceT.Append not found"
+	}
+	var nObj, dObj types.Object
+	var nPos, dPos token.Pos
+	for _, st := range fd.Body.List {
+		as, ok := st.(*ast.AssignStmt)
+		if !ok || as.Tok != token.DEFINE || len(as.Lhs) != 1 || len(as.Rhs) != 1 {
+			continue
+		}
+		id := as.Lhs[0].(*ast.Ident)
+		switch nosp(c.Src(as.Rhs[0])) {
+		case "len(s.data)":
+			nObj, nPos = c.Info.Defs[id], as.Pos()
+		case "append(s.data,items...)":
+			dObj, dPos = c.Info.Defs[id], as.Pos()
+		}
+	}
+	if nObj == nil || dObj == nil || nPos > dPos {
+		return "the old length is not taken before the append"
+	}
+	found := false
+	stores := 0
+	ast.Inspect(fd.Body, func(n ast.Node) bool {
+		if as, ok := n.(*ast.AssignStmt); ok {
+			for _, l := range as.Lhs {
+				if ix, ok := unparen(l).(*ast.IndexExpr); ok {
+					if id, ok := unparen(ix.X).(*ast.Ident); ok && c.Obj(id) == dObj {
+						stores++
+					}
+				}
+				if id, ok := unparen(l).(*ast.Ident); ok && as.Tok != token.DEFINE && (c.Obj(id) == dObj || c.Obj(id) == nObj) {
+					stores += 100 // reassigned: not the shape
+				}
+			}
+		}
+		f, ok := n.(*ast.ForStmt)
+		if !ok || f.Init == nil || f.Cond == nil || f.Post == nil || len(f.Body.List) != 1 {
+			return true
+		}
+		init, ok := f.Init.(*ast.AssignStmt)
+		if !ok || len(init.Lhs) != 1 || len(init.Rhs) != 1 {
+			return true
+		}
+		iv, ok := init.Lhs[0].(*ast.Ident)
+		if !ok {
+			return true
+		}
+		if rid, ok := unparen(init.Rhs[0]).(*ast.Ident); !ok || c.Obj(rid) != nObj {
+			return true
+		}
+		if nosp(c.Src(f.Cond)) != iv.Name+"<len("+dObj.Name()+")" {
+			return true
+		}
+		if p, ok := f.Post.(*ast.IncDecStmt); !ok || p.Tok != token.INC || nosp(c.Src(p.X)) != iv.Name {
+			return true
+		}
+		elem := dObj.Name() + "[" + iv.Name + "]"
+		if bs, ok := f.Body.List[0].(*ast.AssignStmt); ok && bs.Tok == token.ASSIGN && len(bs.Lhs) == 1 && len(bs.Rhs) == 1 &&
+			nosp(c.Src(bs.Lhs[0])) == elem && nosp(c.Src(bs.Rhs[0])) == elem+".assign(s.valueType)" {
+			found = true
+		}
+		return true
+	})
+	if !found {
+		return "no loop converts the elements from the old length to the new one with assign(s.valueType)"
+	}
+	if stores != 1 {
+		return "the appended data is written elsewhere too"
+	}
+	return ""
+}
+
+func init() {
+	if os.Getenv("GOATCHECK_DEBUG_APPEND") != "" {
+		debugAppend = true
+	}
+}
+
+var debugAppend bool
